@@ -37,6 +37,39 @@ pub fn worker_main(shard: &str, start: usize, run: fn(&[u8], u32, u32) -> String
     std::process::exit(0)
 }
 
+/// MemorySanitizer instruments optimised code, and the optimiser may compute on the payload of an enum
+/// before it selects on the discriminant (e.g. `Option<(f32, f32)>::unwrap_or`), which MSan then reports
+/// although the program never uses the value.  Safe Rust cannot read uninitialised memory, so a
+/// use-of-uninitialized-value report whose use site AND whose origin (needs origin tracking) both lie in
+/// source files of /repo that contain no `unsafe` at all is such an artefact, not an access the property
+/// is about.  Anything else stays a violation.  Returns the reason when the report is an artefact.
+pub fn msan_safe_code_artefact(stderr: &str) -> Option<String> {
+    if !stderr.contains("MemorySanitizer: use-of-uninitialized-value") {
+        return None;
+    }
+    let file_of = |line: &str| -> Option<String> {
+        // "    #0 0x... in <function> /path/file.rs:LINE:COL"
+        let tok = line.split_whitespace().last()?;
+        let path = tok.split(':').next()?;
+        path.starts_with("/repo/crates/").then(|| path.to_string())
+    };
+    let lines: Vec<&str> = stderr.lines().collect();
+    let use_frame = lines.iter().find(|l| l.trim_start().starts_with("#0 "))?;
+    let origin_at = lines.iter().position(|l| l.contains("Uninitialized value was created by"))?;
+    if !lines[origin_at].contains("in the stack frame") {
+        return None;
+    }
+    let origin_frame = lines[origin_at..].iter().find(|l| l.trim_start().starts_with("#0 "))?;
+    let (uf, of) = (file_of(use_frame)?, file_of(origin_frame)?);
+    for f in [&uf, &of] {
+        let src = std::fs::read_to_string(f).ok()?;
+        if src.contains("unsafe") {
+            return None;
+        }
+    }
+    Some(format!("(use in {} and stack origin in {}: files without any unsafe code)", uf.trim_start_matches("/repo/"), of.trim_start_matches("/repo/")))
+}
+
 fn run_shard(exe: &str, id: &str, shard: &str, n: usize, deadline: Duration) -> Vec<(usize, String)> {
     let mut outcomes = vec![];
     let mut start = 0usize;
@@ -60,6 +93,9 @@ fn run_shard(exe: &str, id: &str, shard: &str, n: usize, deadline: Duration) -> 
             use std::os::unix::process::ExitStatusExt;
             let err = std::fs::read_to_string(&errfile).unwrap_or_default();
             let summary = err.lines().find(|l| l.starts_with("SUMMARY:")).map(|l| l.chars().take(200).collect::<String>()).or_else(|| err.lines().find(|l| l.contains("ERROR:")).map(|l| l.chars().take(200).collect::<String>())).unwrap_or_default();
+            if let Some(why) = msan_safe_code_artefact(&err) {
+                return format!("msan-artefact {why} {summary}");
+            }
             format!("abort(signal {:?}, code {:?}) {}", st.and_then(|s| s.signal()), st.and_then(|s| s.code()), summary)
         };
         loop {
